@@ -121,7 +121,8 @@ def plan(tier, ctx):
     # ------------------------------------------------------------------ overflow + resume, NULL buffers
     if quick:
         ovf = [((3, 3, 2, 1), caps, sp) for caps in
-               [(1, -2, -2), (-2, 1, -2), (-2, 3, -2), (-2, -2, 1), (2, 2, 2), (1, 1, 1), (-1, -1, -1), (-1, 2, -2)]
+               [(1, -2, -2), (-2, 1, -2), (-2, 3, -2), (-2, -2, 1), (2, 2, 2), (1, 1, 1), (-1, -1, -1), (-1, 2, -2),
+                (-2, -1, -2), (-2, -1, 1), (-1, -2, -1)]   # name skipped (NULL) but comment wanted, and the reverse
                for sp in (-1, 12, 16, 19)]
         ovf += [((2, 2, 1, 0), (1, 1, 1), sp) for sp in (-1, 13, 15)]
     else:
